@@ -6,7 +6,7 @@ from .gea import Seq, Alt
 from .interp import Events, normal_cfg, language
 from .lang import Roles
 from .origin import Origins, show, walk
-from .paths import acyclic_paths, PathOriginsOv, simplify
+from .paths import acyclic_paths, PathOriginsOv, simplify, path_preds
 from .util import Vars, reaches_without
 from . import p_c01, p_c06
 from .p_c05 import PR
@@ -43,24 +43,6 @@ def loop_of(body, cfg, pred):
             if t["k"] == "call" and pred(t):
                 return be[1], loop, same
     return None, None, None
-
-
-def path_preds(body, org, p):
-    """(cond origin, truth) for every two-way bool switch on the path"""
-    out = []
-    for i, bi in enumerate(p[:-1]):
-        t = body.blocks[bi]["term"]
-        if t["k"] == "switch" and t["xty"] == "bool":
-            nxt = p[i + 1]
-            vals = [int(v) for v, bb in t["arms"] if bb == nxt]
-            if vals:
-                truth = vals[0] != 0
-            elif t["otherwise"] == nxt:
-                truth = 0 in {int(v) for v, _ in t["arms"]}
-            else:
-                continue
-            out.append((simplify(org.of_operand(t["x"], bi, "t")), truth, t["span"]["at"]))
-    return out
 
 
 def is_k(o):
